@@ -119,7 +119,7 @@ Definition w_reduce_nil :=
   mkCall FReduce 0 0 P0 SNil SNil None None false None None None TDefault CAbsent false BAdd (Some 5) 1 false TrT.
 Definition w_map_nil := mk FMap 0 0 P0 SNil SNil None None (Some KSucc) TDefault CAbsent false.
 Definition w_merge_nil := mk FMerge 0 0 P0 SNil (SList [1]) None None None (TTest TLt) CAbsent false.
-(* (merge 'list '(-1) '(1) '< :key 'abs) => (1 -1) *)
+(* (merge 'list '(-1) '(1) '< :key 'abs) => (-1 1) (repaired: was (1 -1)) *)
 Definition w_merge_tie := mk FMerge 0 0 P0 (SList [-1]) (SList [1]) None None (Some KAbs) (TTest TLt) CAbsent false.
 (* (some (lambda (x) (if (< 1 x) x nil)) '(1 2 3)) => 2 (repaired: was t) *)
 Definition w_some_value :=
@@ -142,16 +142,16 @@ Definition refutation_witnesses : list call :=
   [w_remove_if_not; w_find_if_not; w_test_not; w_subst_test_not; w_setdiff_test_not; w_subst_count; w_subst_count0; w_subst_count_neg;
    w_mismatch_from_end;
    w_fill_end; w_fill_start;
-   w_merge_tie; w_reduce_empty; w_reduce_start; w_dups_ne; w_dups_from_end].
+   w_reduce_empty; w_reduce_start; w_dups_ne; w_dups_from_end].
 
 Lemma all_refuted : forallb refutes refutation_witnesses = true.
 Proof. vm_compute. reflexivity. Qed.
 
 Lemma refuted_values :
-  map m_call [w_test_not; w_subst_count; w_mismatch_from_end; w_merge_tie; w_reduce_empty] =
-  [Some (RErr EType); Some (RSeq [0;1;0;1]); Some (RInt 2); Some (RSeq [1;-1]); Some RNil] /\
-  map s_call [w_test_not; w_subst_count; w_mismatch_from_end; w_merge_tie; w_reduce_empty] =
-  [Some (RElt 0); Some (RSeq [0;9;0;1]); Some (RInt 3); Some (RSeq [-1;1]); Some (RElt 0)].
+  map m_call [w_test_not; w_subst_count; w_mismatch_from_end; w_reduce_empty] =
+  [Some (RErr EType); Some (RSeq [0;1;0;1]); Some (RInt 2); Some RNil] /\
+  map s_call [w_test_not; w_subst_count; w_mismatch_from_end; w_reduce_empty] =
+  [Some (RElt 0); Some (RSeq [0;9;0;1]); Some (RInt 3); Some (RElt 0)].
 Proof. vm_compute. split; reflexivity. Qed.
 
 (* ---- repaired defects: the witnesses of the findings repaired in slip (repo_fixes/C14-n.patch) are now inside
@@ -161,7 +161,8 @@ Definition repaired_witnesses : list (call * res) :=
     (w_subseq_nil, RSeq []); (w_every_nil, RTrue); (w_subsetp_nil, RTrue); (w_reduce_nil, RElt 5);
     (w_map_nil, RSeq []); (w_merge_nil, RSeq [1]); (w_search_from_end, RInt 0); (w_search_empty, RInt 1);
     (w_mismatch_start, RInt 2); (w_replace_end, RSeq [9;9;3]);
-    (w_reduce_start_init, RElt 7); (w_some_value, RElt 2); (w_assoc_order, RSeq [2;0]) ].
+    (w_reduce_start_init, RElt 7); (w_some_value, RElt 2); (w_assoc_order, RSeq [2;0]);
+    (w_merge_tie, RSeq [-1;1]) ].
 Definition repaired_ok (cr : call * res) : bool :=
   in_domain (fst cr) &&
   match m_call (fst cr), s_call (fst cr) with
@@ -268,8 +269,6 @@ Lemma mismatch_refuted : refutes w_mismatch_from_end = true.
 Proof. vm_compute. reflexivity. Qed.
 Lemma fill_end_refuted : refutes w_fill_end = true /\ refutes w_fill_start = true.
 Proof. vm_compute. split; reflexivity. Qed.
-Lemma merge_tie_refuted : refutes w_merge_tie = true.
-Proof. vm_compute. reflexivity. Qed.
 Lemma reduce_refuted : refutes w_reduce_empty = true /\ refutes w_reduce_start = true.
 Proof. vm_compute. split; reflexivity. Qed.
 Lemma remove_duplicates_refuted : refutes w_dups_ne = true /\ refutes w_dups_from_end = true.
